@@ -559,6 +559,7 @@ where
             }
             consume(r, cons)
         }
+        It::IntoIter(a) => consume(build(a, env)?.map(list_items).into_iter(), cons),
         It::Enum(inner) => match &**inner {
             It::Rep(a, lo, hi) => {
                 let mut r = build(a, env)?.repeated().at_least(*lo);
@@ -597,6 +598,14 @@ where
             }
             _ => Err("unsupported configure operand".into()),
         },
+    }
+}
+
+/// the elements of a collected output (p.into_iter() needs an IntoIterator output)
+fn list_items(v: Val) -> Vec<Val> {
+    match v {
+        Val::L(xs) => xs,
+        other => vec![other],
     }
 }
 
@@ -642,6 +651,7 @@ where
             }
             _ => Err("unsupported configure operand".into()),
         },
+        It::IntoIter(a) => Ok(Parser::map(build(a, env)?.map(list_items).into_iter(), |()| Val::U).bxd()),
         _ => Err("enumerate cannot be run as a parser".into()),
     }
 }
